@@ -682,6 +682,48 @@ def _explore(out, tier, seed, facts, replay, tmp):
                         for d in range(ntimes):
                             add("timeseries", "verif -m timeseries, input %d, time %d" % (k, d), "row_nanmeans X %s" % fvecs([fc[d, l, :] for l in range(fc.shape[1])]),
                                 ls[1 + k * ntimes + d].get_ydata(), rep)
+        # ---- rank view (-type rank): for every rank position the stacked shares of the inputs (and of "none") add up to 1,
+        #      the shares being taken over the slices where EVERY input has a score
+        for rr in range(3 if tier == "quick" else 12):
+            Fr = rng.choice([2, 3, 3])
+            nl_r = rng.randint(4, 6)
+            obs_r = [[rng.randint(0, 32) / 4.0 for _ in range(4)] for _ in range(nl_r)]
+            files_r = []
+            const_at = {k: rng.randrange(nl_r) for k in range(1, Fr) if rng.random() < 0.7}      # an input whose forecasts are constant at one lead time: corr undefined there
+            tie_at = rng.randrange(nl_r)
+            if rr == 0:         # always once: three inputs, the third undefined exactly where the first two tie
+                Fr, const_at = 3, {2: tie_at}
+            for k in range(Fr):
+                fn_r = os.path.join(tmp, "rank%d_%s.txt" % (rr, "abc"[k]))
+                with open(fn_r, "w") as f_:
+                    f_.write("unixtime leadtime location obs fcst\n")
+                    for l_ in range(nl_r):
+                        for t_ in range(4):
+                            fc_ = obs_r[l_][t_] + rng.randint(-8, 8) / 4.0
+                            if const_at.get(k) == l_:
+                                fc_ = 3.0
+                            if l_ == tie_at and k <= 1:
+                                fc_ = obs_r[l_][t_] + (1.0 if t_ % 2 else -1.0)          # inputs 0 and 1 tie at this lead time
+                            f_.write("%d %d 1 %g %g\n" % (1325376000 + 86400 * t_, 6 * l_, obs_r[l_][t_], fc_))
+                files_r.append(fn_r)
+            mname_r = "corr" if rr == 0 else rng.choice(["corr", "mae"])
+            argv_r = ["verif"] + files_r + ["-m", mname_r, "-type", "rank", "-x", "leadtime", "-f", os.path.join(tmp, "rank%d.png" % rr)]
+            st, info = runner.run(argv_r)
+            rep_r = {"argv": ["verif"] + [os.path.basename(f_) for f_ in files_r] + argv_r[1 + Fr:-1], "files": {os.path.basename(f_): open(f_).read() for f_ in files_r}}
+            if st != "ok":
+                out.violation("rank:%s" % st, "verif %s ends with %s %s" % (" ".join(rep_r["argv"][1:]), st, info), rep_r)
+                continue
+            fig_r = runner.cap.get("fig")
+            stats["rank"] = stats.get("rank", 0) + 1
+            cols_r = {}
+            for b_ in fig_r.axes[0].patches:
+                if hasattr(b_, "get_height") and b_.get_width() > 0:
+                    cols_r.setdefault(round(b_.get_x(), 6), 0.0)
+                    cols_r[round(b_.get_x(), 6)] += b_.get_height() if not np.isnan(b_.get_height()) else 0.0
+            if len(cols_r) != Fr or any(abs(v_ - 1.0) > 1e-9 for v_ in cols_r.values()):
+                out.violation("rank:shares", "verif %s: the stacked shares at the %d rank positions add up to %r, expected 1 at each of the %d positions "
+                              "(inputs with an undefined score at one lead time: %r; inputs 0 and 1 tie at lead time %d)"
+                              % (" ".join(rep_r["argv"][1:]), len(cols_r), [round(v_, 4) for v_ in cols_r.values()], Fr, {k_: 6 * v_ for k_, v_ in const_at.items()}, 6 * tie_at), rep_r)
     finally:
         runner.close()
         runner.mpl.close("all")
